@@ -59,6 +59,10 @@ pub enum Act {
     CloseBalance { u: usize, b: usize },
     /// the group admin re-tags a bank between the default and SOL classes (lending_pool_configure_bank)
     Retag { b: usize, tag: u8 },
+    /// the admin flags a bank for token-less repayments and the risk admin declares them complete (bank sunset)
+    Sunset { b: usize },
+    /// the risk admin purges a lender's balance in a sunset bank
+    Purge { u: usize, b: usize },
 }
 
 fn fx(v: marginfi_type_crate::types::WrappedI80F48) -> i128 {
@@ -162,6 +166,23 @@ impl Scen {
             6 => self.remaining_capacity(b).saturating_add(rng.below(3)).saturating_sub(1),
             _ => 1_000_000 * (1 + rng.below(100)),
         };
+        if rng.chance(1, 8) {
+            let mut cands = vec![];
+            for (bi, h) in self.banks.iter().enumerate() {
+                if self.w.bank(&h.bank).flags & marginfi_type_crate::constants::TOKENLESS_REPAYMENTS_COMPLETE == 0 {
+                    continue;
+                }
+                for (ui, us) in self.users.iter().enumerate() {
+                    if self.w.marginfi_account(&us.acct).lending_account.get_balance(&h.bank).is_some() {
+                        cands.push((ui, bi));
+                    }
+                }
+            }
+            if !cands.is_empty() {
+                let (u, b) = *rng.pick(&cands);
+                return Act::Purge { u, b };
+            }
+        }
         // closable leftovers (active slot, less than one share on both sides) are closed eagerly, so that balance
         // closure is exercised after time has passed on banks with deposits and debt
         if rng.chance(1, 4) {
@@ -190,6 +211,10 @@ impl Scen {
             17 => Act::Accrue { b },
             18 => Act::CollectFees { b },
             19 if rng.chance(1, 2) => Act::Retag { b, tag: rng.below(2) as u8 },
+            19 if rng.chance(1, 3) => {
+                let sunset = self.w.bank(&self.banks[b].bank).flags & marginfi_type_crate::constants::TOKENLESS_REPAYMENTS_COMPLETE != 0;
+                if sunset { Act::Purge { u, b } } else if rng.chance(1, 3) { Act::Sunset { b } } else { Act::CloseBalance { u, b } }
+            }
             _ => Act::CloseBalance { u, b },
         }
     }
@@ -243,6 +268,17 @@ impl Scen {
                 let us = &self.users[*u];
                 ix::close_balance(&self.banks[*b], us.acct, us.wallet)
             }
+            Act::Sunset { .. } => return None,
+            Act::Purge { u, b } => {
+                use anchor_lang::{InstructionData, ToAccountMetas};
+                let h = &self.banks[*b];
+                solana_program::instruction::Instruction {
+                    program_id: marginfi::ID,
+                    accounts: marginfi::accounts::LendingAccountPurgeDelevBalance { group: h.group, marginfi_account: self.users[*u].acct, risk_admin: self.admin, bank: h.bank }
+                        .to_account_metas(None),
+                    data: marginfi::instruction::PurgeDeleverageBalance {}.data(),
+                }
+            }
             Act::Retag { b, tag } => ix::configure_bank(
                 &self.banks[*b],
                 self.admin,
@@ -268,6 +304,25 @@ impl Scen {
             self.w.advance(*dt);
             self.hist.push(format!("clock+{}", dt));
             return None;
+        }
+        if let Act::Sunset { b } = act {
+            let h = self.banks[*b];
+            let pre = self.w.bank(&h.bank);
+            let tx = [
+                ix::configure_bank(&h, self.admin, marginfi_type_crate::types::BankConfigOpt { tokenless_repayments_allowed: Some(true), ..Default::default() }),
+                ix::force_tokenless_repay_complete(&h, self.admin),
+            ];
+            let r = self.w.exec_tx(&tx).map_err(|(_, e)| e);
+            self.hist.push(format!("{:?}->{}", act, match &r { Ok(()) => "ok".to_string(), Err(e) => format!("{}", e) }));
+            if r.is_ok() {
+                rep.bump("ok_Sunset");
+                let mut expect = pre;
+                expect.flags |= marginfi_type_crate::constants::TOKENLESS_REPAYMENTS_ALLOWED | marginfi_type_crate::constants::TOKENLESS_REPAYMENTS_COMPLETE;
+                if self.w.bank(&h.bank) != expect {
+                    rep.fail(format!("C12 flagging bank {} for token-less repayments changed more than the two flags; hist {:?}", b, self.hist));
+                }
+            }
+            return Some(r);
         }
         let ixn = self.instruction(act)?;
         // make sure the fee ATA exists for collect
@@ -351,7 +406,7 @@ impl Scen {
             return;
         }
         let touched: Option<usize> = match act {
-            Act::Deposit { b, .. } | Act::Withdraw { b, .. } | Act::Borrow { b, .. } | Act::Repay { b, .. } | Act::Accrue { b } | Act::CollectFees { b } | Act::CloseBalance { b, .. } => Some(*b),
+            Act::Deposit { b, .. } | Act::Withdraw { b, .. } | Act::Borrow { b, .. } | Act::Repay { b, .. } | Act::Accrue { b } | Act::CollectFees { b } | Act::CloseBalance { b, .. } | Act::Purge { b, .. } => Some(*b),
             _ => None,
         };
         for (bi, h) in self.banks.clone().iter().enumerate() {
@@ -359,7 +414,7 @@ impl Scen {
             let post = self.w.bank(&h.bank);
             // ---- C06: accrual first / monotone / fees non-negative
             let early_noop = matches!(act, Act::Deposit { amt: 0, .. });
-            if Some(bi) == touched && !matches!(act, Act::CollectFees { .. }) && !early_noop {
+            if Some(bi) == touched && !matches!(act, Act::CollectFees { .. } | Act::Purge { .. }) && !early_noop {
                 let zero_upto = matches!(act, Act::Deposit { upto: true, .. }) && fx(post.total_asset_shares) == fx(pre.total_asset_shares);
                 if post.last_update != now && !zero_upto {
                     rep.fail(format!("C06 bank {} last_update {} != clock {} after successful {:?}: interest not brought up to date; hist {:?}", bi, post.last_update, now, act, self.hist));
@@ -368,7 +423,7 @@ impl Scen {
             // the share values after any successful instruction on the bank must be exactly those that a
             // plain accrual of the PRE-state bank up to `now` produces (user operations never move share
             // values; bankruptcy, which does, is not part of this action set)
-            if Some(bi) == touched && !matches!(act, Act::CollectFees { .. }) && !early_noop {
+            if Some(bi) == touched && !matches!(act, Act::CollectFees { .. } | Act::Purge { .. }) && !early_noop {
                 use marginfi::state::bank::BankImpl;
                 let mut expect = *pre;
                 let g = self.w.group(&self.group);
@@ -467,6 +522,7 @@ impl Scen {
                         match act {
                             Act::Withdraw { all: true, .. } => self.dust_l[bi] += big(fx(was.liability_shares)),
                             Act::Repay { all: true, .. } => self.dust_a[bi] += big(fx(was.asset_shares)),
+                            Act::Purge { .. } => {} // the bank total is reduced by exactly the purged shares: no dust
                             Act::CloseBalance { .. } => {
                                 self.dust_a[bi] += big(fx(was.asset_shares));
                                 self.dust_l[bi] += big(fx(was.liability_shares));
@@ -524,7 +580,7 @@ impl Scen {
             // sorted descending by bank key with inactive slots last
             let keys: Vec<Pubkey> = a.lending_account.balances.iter().map(|b| b.bank_pk).collect();
             let touched_user = match act {
-                Act::Deposit { u: x, .. } | Act::Withdraw { u: x, .. } | Act::Borrow { u: x, .. } | Act::Repay { u: x, .. } | Act::CloseBalance { u: x, .. } => self.users[*x].acct == u.acct,
+                Act::Deposit { u: x, .. } | Act::Withdraw { u: x, .. } | Act::Borrow { u: x, .. } | Act::Repay { u: x, .. } | Act::CloseBalance { u: x, .. } | Act::Purge { u: x, .. } => self.users[*x].acct == u.acct,
                 _ => false,
             };
             if touched_user && !matches!(act, Act::CloseBalance { .. }) {
